@@ -13,6 +13,8 @@ ops (see harness/cmd/sharder/main.go):
   route <i> <tid>         obs keep | fwd:@<addr> | !panic
   send <i> <tid>          obs fwd:@a>collect:@a | collect:@a | …>lost:@a | …>more | !panic
   table <i>               obs n=<k> asc=true t=<uhash>@<addr>,…
+  reloadbusy <i> <list>   the list changes while a WhichShard is in flight; obs p=<peer list>
+  reloadbusy2 <i> <l1> <l2>  two changes, the second right behind the first; obs p=<peer list>
 ext lines `h <enc bytes> <seed> = <value>`: the graph of the hash function (wyhash), accumulated
 over the case.  A point the model needs but the harness did not supply makes the model answer
 `missing-ext` (never a default).
@@ -110,6 +112,20 @@ def shStep (st : OSt) (op : List String) (exts : List (List String)) : OSt × Op
     | some (i, n) =>
       let n' := update consts h n (decList l)
       ({ st with nodes := st.nodes.set i n' }, some ("p=" ++ encList n'.peers))
+  | ["reloadbusy", i, l] =>
+    -- a reload that finds the sharder busy waits for the write lock and then installs the list it
+    -- read: the same as an undisturbed update
+    match nodeOf i with
+    | none => (st, some "bad-op")
+    | some (i, n) =>
+      let n' := update consts h n (decList l)
+      ({ st with nodes := st.nodes.set i n' }, some ("p=" ++ encList n'.peers))
+  | ["reloadbusy2", i, l1, l2] =>
+    match nodeOf i with
+    | none => (st, some "bad-op")
+    | some (i, n) =>
+      let n' := update consts h (update consts h n (decList l1)) (decList l2)
+      ({ st with nodes := st.nodes.set i n' }, some ("p=" ++ encList n'.peers))
   | "start" :: i :: rest =>
     match nodeOf i with
     | none => (st, some "bad-op")
@@ -165,6 +181,9 @@ structure MNode where
   peers : List String := []     -- tokens, as the sharder reported them (sorted)
   my : String := "%"            -- token of MyShard
   started : Bool := false       -- Start was called (the reload callback is registered)
+  src : List String := []       -- tokens of the list the peer source currently returns (from the ops)
+  fed : List String := []       -- tokens of the last non-empty list a reload of this sharder read
+  busy : Bool := false          -- that list arrived while the sharder was busy (`reloadbusy`)
 
 structure MSt where
   nodes : List MNode := []
@@ -197,19 +216,29 @@ def shMon (m : MSt) (op : List String) (_ : List (List String)) (obs : Option St
     match m.nodes[i]? with
     | some n => { m with nodes := m.nodes.set i (f n) }.reset
     | none => m
-  match op with
-  | ["update", i, l] =>
+  -- the peer source of node i changes to each of `ls` in turn; a started sharder must end up
+  -- holding the last non-empty one (any order)
+  let feed (i : String) (ls : List String) (busy : Bool) : MSt × List Fail :=
     match i.toNat?, afterPrefix "p=" o with
     | some i, some p =>
-      -- a started sharder fed a non-empty list must now hold exactly that list (any order)
-      let f := match m.nodes[i]? with
-        | some n =>
-          if n.started && l != "-" && !((tokList p).isPerm (tokList l)) then
-            [fail "stale-peer-list" s!"node {n.self} was fed {l} but holds {p}"]
+      match m.nodes[i]? with
+      | none => (m, [])
+      | some n =>
+        let last := (ls.reverse.find? (· != "-")).map tokList
+        let fed := if n.started then last.getD n.fed else n.fed
+        let isBusy := if n.started && last.isSome then busy else n.busy
+        let suffix := if busy then ":after-busy-reload" else ""
+        let f :=
+          if n.started && last.isSome && !((tokList p).isPerm fed) then
+            [fail ("stale-peer-list" ++ suffix) s!"node {n.self} was fed {" then ".intercalate ls} but holds {p}"]
           else []
-        | none => []
-      (setNode i (fun n => { n with peers := tokList p }), f)
+        (setNode i (fun n => { n with peers := tokList p, src := tokList (ls.getLast?.getD "-"),
+                                      fed := fed, busy := isBusy }), f)
     | _, _ => (m, [])
+  match op with
+  | ["update", i, l] => feed i [l] false
+  | ["reloadbusy", i, l] => feed i [l] true
+  | ["reloadbusy2", i, l1, l2] => feed i [l1, l2] true
   | "start" :: i :: _ =>
     match i.toNat?, kv toks "my", kv toks "p" with
     | some i, some my, some p =>
@@ -224,7 +253,9 @@ def shMon (m : MSt) (op : List String) (_ : List (List String)) (obs : Option St
             [fail "myshard-not-a-peer" s!"node {n.self} started ok with shard {my}, not in {p}"]
           else []
         | none => []
-      (setNode i (fun n => { n with peers := tokList p, my := my, started := true }), f)
+      (setNode i (fun n => { n with peers := tokList p, my := my, started := true,
+                                    fed := if n.src.isEmpty then n.fed else n.src,
+                                    busy := if n.src.isEmpty then n.busy else false }), f)
     | _, _, _ => (m, [])
   | ["which", tid] =>
     let rs := o.splitOn ","
@@ -250,10 +281,32 @@ def shMon (m : MSt) (op : List String) (_ : List (List String)) (obs : Option St
               else go seen rest'
             | none => go (seen ++ [(n, r)]) rest'
         go [(n0, r0)] t
+    -- the same two conclusions against the lists the nodes were *fed* (what their peer source
+    -- returns), so that a sharder sitting on an outdated membership is seen
+    let f3 := prs.flatMap fun (n, r) =>
+      if n.fed.isEmpty || r == "!panic" then []
+      else if !(n.fed.contains (r.drop 1).toString) then
+        [fail ("owner-not-in-peer-list" ++ (if n.busy then ":after-busy-reload" else ""))
+          s!"node {n.self}: owner {r} of {tid} is not in the peer list it was given"]
+      else []
+    let f4 :=
+      let fedNodes := prs.filter (fun (n, _) => !n.fed.isEmpty)
+      let rec go2 (seen : List (MNode × String)) (rest : List (MNode × String)) : List Fail :=
+        match rest with
+        | [] => []
+        | (n, r) :: rest' =>
+          match seen.find? (fun (s, _) => s.fed.isPerm n.fed) with
+          | some (s, rs) =>
+            if rs != r then
+              [fail ("disagree-same-given-list" ++ (if n.busy || s.busy then ":after-busy-reload" else ""))
+                s!"same given list, trace {tid}: node {s.self} says {rs}, node {n.self} says {r}"]
+            else go2 seen rest'
+          | none => go2 (seen ++ [(n, r)]) rest'
+      go2 [] fedNodes
     let m' := match m.uniform, rs with
       | some _, r :: _ => if rs.all (· == r) && r != "!panic" then { m with owner := (tid, (r.drop 1).toString) :: m.owner } else m
       | _, _ => m
-    (m', f1 ++ f2)
+    (m', f1 ++ f2 ++ f3 ++ f4)
   | ["route", i, tid] =>
     match i.toNat? >>= (m.nodes[·]?) with
     | none => (m, [])
